@@ -112,6 +112,17 @@ def mono(ctx, rep, rule):
                     (not gt and b == ("arg", 2) and flow.field_path(a) == ("arg1", "next_oid")):
                 edges.add(g.true_edge)
                 line = g.line
+    # match oid.cmp_arcs(&self.next_oid) { Ordering::Greater => store, _ => .. }: the arm of the strict outcome
+    for swb, term in flow.discr_switches(body, prov, lambda t: is_cmp(t) and len(t[2]) == 2):
+        a, b = term[2]
+        cand_first = a == ("arg", 2) and flow.field_path(b) == ("arg1", "next_oid")
+        cand_second = b == ("arg", 2) and flow.field_path(a) == ("arg1", "next_oid")
+        ve = flow.variant_edges(body, swb) or {}
+        want = "Greater" if cand_first else ("Less" if cand_second else None)
+        if want and want in ve and len({ve.get(x) for x in ("Less", "Equal", "Greater")}) > 1 and \
+                ve[want] not in {ve.get(x) for x in ("Less", "Equal", "Greater") if x != want}:
+            edges.add((swb.idx, ve[want]))
+            line = swb.term.get("line")
     if not edges:
         rep.violation(rule, key, "no strict-order comparison between the candidate OID and the current next_oid guards the update: "
                       "a repeated or decreasing OID is accepted and the walk can loop forever", body.loc(), obligation=True)
